@@ -1,0 +1,30 @@
+// SPDX-FileCopyrightText: 2020-present Open Networking Foundation <info@opennetworking.org>
+//
+// SPDX-License-Identifier: Apache-2.0
+
+//go:build verif
+
+package proposal
+
+import (
+	"github.com/onosproject/onos-config/pkg/pluginregistry"
+	"github.com/onosproject/onos-config/pkg/southbound/gnmi"
+	"github.com/onosproject/onos-config/pkg/store/topo"
+	"github.com/onosproject/onos-config/pkg/store/v2/configuration"
+	proposalstore "github.com/onosproject/onos-config/pkg/store/v2/proposal"
+)
+
+// NewReconcilerForVerif exposes the Reconciler to the verification harness
+func NewReconcilerForVerif(topo topo.Store, conns gnmi.ConnManager, proposals proposalstore.Store, configurations configuration.Store, pluginRegistry pluginregistry.PluginRegistry) *Reconciler {
+	return &Reconciler{conns: conns, topo: topo, proposals: proposals, configurations: configurations, pluginRegistry: pluginRegistry}
+}
+
+// NewWatcherForVerif exposes the Watcher to the verification harness
+func NewWatcherForVerif(proposals proposalstore.Store) *Watcher {
+	return &Watcher{proposals: proposals}
+}
+
+// NewConfigurationWatcherForVerif exposes the ConfigurationWatcher to the verification harness
+func NewConfigurationWatcherForVerif(configurations configuration.Store) *ConfigurationWatcher {
+	return &ConfigurationWatcher{configurations: configurations}
+}
